@@ -161,7 +161,7 @@ def run(ctx):
             q = m.q(f)
             heads = q.body.loop_heads()
             full = len(heads) == 1 and q.cfg.loop_runs_to_completion(list(heads)[0])[0]
-            pcalls = sorted([c for c in q.calls("push") if q.cfg.in_loop(c.b)], key=lambda c: c.b)
+            pcalls = q.ordered([c for c in q.calls("push") if q.cfg.in_loop(c.b)])
             every = all(all(a[0] == "variant" and a[2] == ("Some",) for a in c.guards) for c in pcalls)
             ctx.check(full and every, "layout", tag + "|all-levels", ctx.loc(f), "every level is appended: the loop has no early exit and the 4 pushes are unconditional",
                       "the level loop can stop early or skip pushes (levels behind would not hold the documented quantities)")
